@@ -65,10 +65,14 @@ def run(chk, tier, scale=1.0):
             else:
                 chk.violation(Violation(p, rule, sig, text, wit))
         chk.merge_counts({k: v for k, v in stats.items() if k in ("verdicts", "lines", "reannounce_live", "replies_stray", "post_close_replies")})
+    # real one-second timers: a timer must never speak for a client that was withdrawn, registered, decided or replaced
+    from checks import c10
+    tres = vcommon.pmap(c10.timer_worker, [dict(build=b, seed=chk.seed * 31 + k, rounds=1, props=PROPS) for k in range(2 if tier == "quick" else 16)])
+    prun.fold(chk, "C01", tres)
     chk.rule = ("random lock-step histories (%d events) over 3-5 ids with heavy reuse: announce / re-announce while live / data / passwords / hurry-up / "
                 "replies of every kind / stale, duplicate and malformed-tag replies / hook-fired timeouts / disconnect / registered, with and without the class "
                 "module and a timeout; plus %s orders of a 7-event script (two instances of one id); per-client automaton judges every output line; "
-                "distinct = hash of (config, input lines); non-trivial = the history produced at least one verdict" % (120, "all 5040" if tier != "quick" else "1680 of the 5040"))
+                "distinct = hash of (config, input lines); non-trivial = the history produced at least one verdict" % (120, "all 5040" if tier != "quick" else "1680 of the 5040") + "; plus real-timer runs (timeout 1 s) in which 30 clients end in every possible way and the daemon then idles 1.6 s")
     chk.require("verdicts", 1000 * min(1.0, scale))
     chk.require("reannounce_live", 100 * min(1.0, scale))
     chk.require("post_close_replies", 100 * min(1.0, scale))
